@@ -44,7 +44,7 @@ vars == <<T, bp, nbp, scr, path>>
 View == <<T, bp, nbp, scr>>
 
 Ids == 1..Len(T)
-Idle == [phase |-> "idle", root |-> 0, pending |-> {}, seeded |-> FALSE, before |-> <<>>]
+Idle == [phase |-> "idle", root |-> 0, pending |-> {}, seeded |-> FALSE, before |-> <<>>, stack |-> <<>>]
 
 Leaf(v, tr) == [op |-> "leaf", par |-> NoPar, args |-> <<>>, val |-> v,
                 tracked |-> tr, spent |-> FALSE, wired |-> FALSE, hasGrad |-> FALSE, grad |-> <<>>, gradA |-> <<>>]
@@ -90,6 +90,7 @@ Op(op, par, args) ==
 FreshGraph(r) == \A x \in Reach(r) : ~(T[x].wired /\ T[x].spent)
 
 BPStart(r) ==
+  /\ "bp_edge_walk" \notin Dev
   /\ bp.phase = "idle"
   /\ IF ~T[r].tracked
      THEN UNCHANGED <<T, bp, nbp>>                        \* an untracked root changes nothing
@@ -97,7 +98,7 @@ BPStart(r) ==
           /\ LET R == Reach(r)
              IN /\ T' = [n \in Ids |-> IF n \in R THEN [T[n] EXCEPT !.spent = TRUE] ELSE T[n]]
                 /\ bp' = [phase |-> "run", root |-> r, pending |-> UNION {Edges(y) : y \in R},
-                          seeded |-> FALSE, before |-> T]
+                          seeded |-> FALSE, before |-> T, stack |-> <<>>]
           /\ nbp' = nbp + 1
   /\ UNCHANGED scr
 
@@ -106,6 +107,7 @@ GAdd(node, g) == IF node.hasGrad THEN VAdd(node.grad, g) ELSE g
 GAddA(node, g) == IF node.hasGrad THEN VAdd(node.gradA, g) ELSE g
 
 BPSeed ==
+  /\ "bp_edge_walk" \notin Dev
   /\ bp.phase = "run" /\ ~bp.seeded
   /\ T' = [T EXCEPT ![bp.root].hasGrad = TRUE, ![bp.root].grad = GAdd(T[bp.root], Ones(Prod(T[bp.root].val.dims))),
                      ![bp.root].gradA = GAddA(T[bp.root], Ones(Prod(T[bp.root].val.dims)))]
@@ -123,6 +125,7 @@ VJPOfA(e) ==
 Ready(e) == \A f \in bp.pending : Tgt(f) # e[1]           \* the consumer's gradient is complete
 
 BPApply(e) ==
+  /\ "bp_edge_walk" \notin Dev
   /\ bp.phase = "run" /\ bp.seeded /\ e \in bp.pending /\ Ready(e)
   /\ LET x == Tgt(e)
      IN IF T[x].tracked
@@ -131,7 +134,42 @@ BPApply(e) ==
   /\ bp' = [bp EXCEPT !.pending = @ \ {e}]
   /\ UNCHANGED <<nbp, scr>>
 
-BPDone == bp.phase = "run" /\ bp.seeded /\ bp.pending = {}
+(* ---- the recorded (and since repaired) deviation "bp_edge_walk": finding D1 ----                              *)
+(* The library at the pinned commit walked the edges depth-first: handing a gradient to a tensor immediately   *)
+(* re-walked that tensor's own edges, each time with the gradient accumulated SO FAR.  A tensor with two        *)
+(* consumers therefore pushed its first partial gradient down once and the sum down again (x.Scale(2) added to  *)
+(* itself gave 6 instead of 4), and the work grew exponentially with the number of reconvergent levels.  The    *)
+(* walk is kept here, behind the switch, as the record of that finding: with Dev = {"bp_edge_walk"} TLC reports *)
+(* C01_Total violated with the diamond as counterexample (the C01 check asserts this on every run, which also   *)
+(* shows that the invariant is not vacuous).                                                                    *)
+EdgeSeq(y) == IF T[y].wired THEN [k \in DOMAIN T[y].args |-> <<y, k>>] ELSE <<>>
+
+WalkStart(r) ==
+  /\ "bp_edge_walk" \in Dev /\ bp.phase = "idle"
+  /\ IF ~T[r].tracked
+     THEN UNCHANGED <<T, bp, nbp>>
+     ELSE /\ nbp < MaxBP /\ FreshGraph(r)
+          /\ T' = [T EXCEPT ![r].spent = TRUE, ![r].hasGrad = TRUE,
+                            ![r].grad = GAdd(T[r], Ones(Prod(T[r].val.dims))), ![r].gradA = GAddA(T[r], Ones(Prod(T[r].val.dims)))]
+          /\ bp' = [phase |-> "run", root |-> r, pending |-> {}, seeded |-> TRUE, before |-> T, stack |-> <<EdgeSeq(r)>>]
+          /\ nbp' = nbp + 1
+  /\ UNCHANGED scr
+
+WalkStep ==
+  /\ "bp_edge_walk" \in Dev /\ bp.phase = "run" /\ bp.stack # <<>>
+  /\ LET top == Head(bp.stack)
+     IN IF top = <<>>
+        THEN /\ bp' = [bp EXCEPT !.stack = Tail(@)] /\ UNCHANGED T
+        ELSE LET e == Head(top)
+                 x == Tgt(e)
+             IN IF ~T[x].tracked
+                THEN /\ bp' = [bp EXCEPT !.stack = <<Tail(top)>> \o Tail(@)] /\ UNCHANGED T
+                ELSE /\ T' = [T EXCEPT ![x].spent = TRUE, ![x].hasGrad = TRUE,
+                                       ![x].grad = GAdd(T[x], VJPOf(e)), ![x].gradA = GAddA(T[x], VJPOfA(e))]
+                     /\ bp' = [bp EXCEPT !.stack = <<EdgeSeq(x), Tail(top)>> \o Tail(@)]
+  /\ UNCHANGED <<nbp, scr>>
+
+BPDone == bp.phase = "run" /\ bp.seeded /\ bp.pending = {} /\ bp.stack = <<>>
 
 BPEnd ==
   /\ BPDone
@@ -163,6 +201,8 @@ Next ==
   \/ \E u \in UnOps, a \in Ids : Op(u[1], u[2], <<a>>) /\ L(<<"op", u[1], EncParOf(u[2]), <<a>>>>)
   \/ \E b \in BinOps, a1, a2 \in Ids : Op(b[1], b[2], <<a1, a2>>) /\ L(<<"op", b[1], EncParOf(b[2]), <<a1, a2>>>>)
   \/ \E r \in Ids : BPStart(r) /\ L(<<"bp", r>>)
+  \/ \E r \in Ids : WalkStart(r) /\ L(<<"bp", r>>)
+  \/ WalkStep /\ L(<<"walk">>)
   \/ BPSeed /\ L(<<"seed">>)
   \/ \E y \in Ids, k \in 1..3 : BPApply(<<y, k>>) /\ L(<<"apply", y, k>>)
   \/ BPEnd /\ L(<<"bpend">>)
